@@ -453,7 +453,7 @@ def _render(toks, l, rich, final_newline, comments_ok):
     def newline(last=False):
         s = ""
         if rich and comments_ok and l.random() < 0.3:
-            t = l.choice([" c", "x y", " if then", " 'q", ' "d', " $(", " é", " #", ""])
+            t = l.choice([" c", "x y", " if then", " 'q", ' "d', " $(", " é", " #", "", " a\\", "\\"])
             comments.append(t)
             s += l.choice([" #", "\t#"]) + t
         s += "\n" + "".join(pending)
